@@ -562,7 +562,14 @@ pub fn rundigests(ctx: &Ctx, prop: &str, n: u64) -> i32 {
                 ctx.workers,
                 16,
                 |run, acc: &mut Vec<String>| -> Result<(), ()> {
-                    let out = simulate(run_seed(seed, stream_of(profile), run), profile, oracles, profile == Profile::C07, 400);
+                    // every 40th run is one of the special session kinds (hoarded flood / thread history)
+                    let out = if run % 400 == 7 && matches!(profile, Profile::C01 | Profile::C08) {
+                        crate::sim::simulate_mega(run_seed(seed, stream_of(profile) + 4000, run), profile, oracles, false)
+                    } else if run % 40 == 9 && profile == Profile::C18 {
+                        crate::sim::simulate_history(run_seed(seed, stream_of(profile) + 5000, run), profile, oracles, false)
+                    } else {
+                        simulate(run_seed(seed, stream_of(profile), run), profile, oracles, profile == Profile::C07, 400)
+                    };
                     let mut d = crate::prng::Digest::new();
                     d.str(&serde_json::to_string(&out.scenario).unwrap());
                     d.u64(out.ticks);
